@@ -385,14 +385,6 @@ func zzC04HasUnknown(sh zzC04Shape, args List) bool {
 	return false
 }
 
-// zzC04StubTypePanic replaces TypePanic in the C04.bind runs: the same panic
-// class (a condition) without building the message text, which would format
-// the symbolic fixnum digit by digit (dozens of forks per rejected call). The
-// property does not depend on the wording of the type-error.
-func zzC04StubTypePanic(s *Scope, depth int, use string, value Object, wants ...string) {
-	panic(&Panic{Message: "type-error (C04 stub, message text not built): " + use})
-}
-
 // zzC04StubErrorPanic replaces ErrorPanic in the C04.bind runs: Lambda.Call's
 // "Too many arguments to %s" formats the lambda itself, whose printed form
 // contains its address (uintptr conversion, not modelled by the engine). The
